@@ -24,8 +24,11 @@ const (
 type Participant struct {
 	Key    int      `json:"key"`            // index into Case.Keys
 	Alt    bool     `json:"alt,omitempty"`  // the second client operation that issues the identical subgraph fetch
-	Script string   `json:"script"`         // normal | cancel | fail-load | fail-hard
+	Script string   `json:"script"`         // normal | cancel | deadline | fail-load | fail-hard
 	Park   []string `json:"park,omitempty"` // windows at which this participant parks on first arrival
+	// WriteFail: this client's connection fails when the response is written to it (after the
+	// park at "write", if any: the write hangs, then fails). Private to this participant.
+	WriteFail bool `json:"write_fail,omitempty"`
 }
 
 // Case is one scenario: the requests, their scripts, and the schedule.
@@ -33,7 +36,13 @@ type Case struct {
 	Layer      string        `json:"layer"`   // inbound | subgraph | both
 	OpType     string        `json:"op_type"` // query | mutation | subscription
 	HardCancel bool          `json:"hard_cancel,omitempty"`
-	Keys       []Key         `json:"keys"`
+	// MaxConc is ResolverOptions.MaxConcurrency (0: 64, never the bottleneck; 1-2: the
+	// participants themselves saturate the resolver and queue for a slot).
+	MaxConc int `json:"max_conc,omitempty"`
+	// Transport "opaque": the data source / pre-fetch hook report a call aborted by the end of
+	// the caller's context with an error that does not wrap the context error (gRPC status style).
+	Transport string        `json:"transport,omitempty"`
+	Keys      []Key         `json:"keys"`
 	Parts      []Participant `json:"parts"`
 	// Sched drives the harness: at every step the i-th number picks (mod n) among the enabled
 	// actions [start(p)…, cancel(p)…, resume(p)…, poison]; when exhausted the first enabled
@@ -43,9 +52,13 @@ type Case struct {
 
 func (c Case) text() string {
 	var b strings.Builder
-	fmt.Fprintf(&b, "%s/%s hard=%v keys=%v", c.Layer, c.OpType, c.HardCancel, c.Keys)
+	fmt.Fprintf(&b, "%s/%s hard=%v maxconc=%d transport=%s keys=%v", c.Layer, c.OpType, c.HardCancel, c.MaxConc, c.Transport, c.Keys)
 	for i, p := range c.Parts {
-		fmt.Fprintf(&b, " p%d{k%d alt=%v %s park=%v}", i, p.Key, p.Alt, p.Script, p.Park)
+		wf := ""
+		if p.WriteFail {
+			wf = " write-fails"
+		}
+		fmt.Fprintf(&b, " p%d{k%d alt=%v %s%s park=%v}", i, p.Key, p.Alt, p.Script, wf, p.Park)
 	}
 	fmt.Fprintf(&b, " sched=%v", c.Sched)
 	return b.String()
@@ -102,9 +115,18 @@ func genCase(layer string) func(t *rapid.T) Case {
 		c := Case{Layer: layer}
 		c.OpType = rapid.SampledFrom([]string{"query", "query", "query", "query", "query", "query", "query", "query", "mutation", "subscription"}).Draw(t, "optype")
 		c.HardCancel = rapid.IntRange(0, 3).Draw(t, "hardcancel") == 0
+		c.MaxConc = rapid.SampledFrom([]int{0, 0, 0, 0, 1, 1, 1, 2}).Draw(t, "maxconc")
+		if rapid.IntRange(0, 2).Draw(t, "opaque") == 0 {
+			c.Transport = "opaque"
+		}
 		c.Keys = genKeys(t)
 		n := rapid.IntRange(2, 6).Draw(t, "nparts")
 		wins := layerWindows(layer)
+		scripts := []string{scNormal, scNormal, scNormal, scNormal, scNormal, scCancel, scCancel, scDeadline, scFailLoad, scFailLoad, scFailHard}
+		if c.MaxConc != 0 {
+			// a saturated resolver is interesting when somebody gives up while queued
+			scripts = []string{scNormal, scNormal, scNormal, scCancel, scCancel, scDeadline, scFailLoad, scFailHard}
+		}
 		for i := 0; i < n; i++ {
 			var p Participant
 			// most participants on key 0 so that sharing actually happens
@@ -114,7 +136,8 @@ func genCase(layer string) func(t *rapid.T) Case {
 			if layer != layerInbound {
 				p.Alt = rapid.Bool().Draw(t, "alt")
 			}
-			p.Script = rapid.SampledFrom([]string{scNormal, scNormal, scNormal, scNormal, scNormal, scCancel, scCancel, scFailLoad, scFailLoad, scFailHard}).Draw(t, "script")
+			p.Script = rapid.SampledFrom(scripts).Draw(t, "script")
+			p.WriteFail = rapid.IntRange(0, 5).Draw(t, "writefail") == 0
 			for _, w := range wins {
 				pr := 4
 				switch w {
@@ -172,6 +195,14 @@ func (c *Case) sanitize() string {
 	if len(c.Keys) == 0 || len(c.Parts) == 0 {
 		return "empty case"
 	}
+	if c.MaxConc < 0 || c.MaxConc > 64 {
+		return "max_conc out of range"
+	}
+	switch c.Transport {
+	case "", "plain", "opaque":
+	default:
+		return "unknown transport " + c.Transport
+	}
 	for i := range c.Keys {
 		for j := 0; j < i; j++ {
 			if c.Keys[i] == c.Keys[j] {
@@ -184,7 +215,7 @@ func (c *Case) sanitize() string {
 			return "participant key out of range"
 		}
 		switch p.Script {
-		case scNormal, scCancel, scFailLoad, scFailHard:
+		case scNormal, scCancel, scDeadline, scFailLoad, scFailHard:
 		default:
 			return "unknown script " + p.Script
 		}
@@ -223,6 +254,10 @@ func runScheduled(c Case, o rec, opts runOpts) (pbt.Verdict, *sched) {
 	o.label("optype:%s", c.OpType)
 	o.label("participants:%d", len(c.Parts))
 	o.label("keys:%d", len(c.Keys))
+	o.label("maxconc:%d", c.MaxConc)
+	if c.Transport == "opaque" {
+		o.label("transport:opaque")
+	}
 
 	// out_alone for everything this case can legitimately observe (fresh resolvers, nothing in flight)
 	for _, p := range c.Parts {
@@ -242,20 +277,20 @@ func runScheduled(c Case, o rec, opts runOpts) (pbt.Verdict, *sched) {
 		}
 	}
 
-	rg := acquireRig()
+	rg := acquireRig(c.MaxConc)
 	before := goroutineSet()
 	s := &sched{wake: make(chan struct{}, 1), byGID: map[int64]*pstate{}, rig: rg, c: &c, loads: &loadLog{},
 		steer17: opts.steer17, steer18: opts.steer18, watchdog: opts.watchdog}
 	for i, sp := range c.Parts {
 		k := c.Keys[sp.Key]
-		ctx, cancel := context.WithCancel(context.Background())
+		ctx, cancel := requestContext(sp.Script)
 		p := &pstate{id: i, spec: sp, key: k, ikey: fmt.Sprintf("%d/%s", clientOpID(k.Op, sp.Alt), k), ctx: ctx, cancel: cancel,
 			want: map[string]bool{}, arrived: map[string]bool{}}
 		for _, w := range sp.Park {
 			p.want[shortToPoint[w]] = true
 		}
-		p.w = &who{pid: i, script: sp.Script, hardCancel: c.HardCancel, p: p, s: s, loads: s.loads}
-		p.wr = &pwriter{p: p, s: s}
+		p.w = &who{pid: i, script: sp.Script, hardCancel: c.HardCancel, opaque: c.Transport == "opaque", p: p, s: s, loads: s.loads}
+		p.wr = &pwriter{p: p, s: s, fail: sp.WriteFail}
 		s.parts = append(s.parts, p)
 	}
 	current.Store(s)
@@ -379,7 +414,49 @@ func runScheduled(c Case, o rec, opts runOpts) (pbt.Verdict, *sched) {
 		if p.lateJoin {
 			o.label("window:subgraph-follower-resumed-after-leader-finished")
 		}
-		if p.spec.Script == scCancel {
+		if p.queued {
+			o.label("slot:queued")
+			for _, q := range s.parts {
+				if q != p && q.ikey == p.ikey && q.arrived[ptBeforeAdd] && !p.arrived[ptBeforeAdd] {
+					o.label("slot:queued-leader-had-followers")
+					if p.cancelled && p.cancelWhere == "queued-for-slot" {
+						o.label("slot:leader-gave-up-while-queued-with-followers")
+					}
+					break
+				}
+			}
+		}
+		if p.spec.WriteFail && p.wr.writes > 0 {
+			o.label("write-fail:fired")
+			if !p.out.Dedup {
+				for _, q := range s.parts {
+					if q != p && q.ikey == p.ikey && q.out.Dedup {
+						o.label("write-fail:leader-with-followers")
+						break
+					}
+				}
+			}
+		}
+		if p.spec.Script == scDeadline && p.cancelled {
+			o.label("deadline:fired:%s", p.cancelWhere)
+			if p.loadResult == "canceled" {
+				for _, q := range s.parts {
+					if q != p && q.spec.Key == p.spec.Key && q.arrived[ptJoined] {
+						o.label("deadline:subgraph-leader-expired-with-followers")
+						break
+					}
+				}
+			}
+		}
+		if p.cancelled && c.Transport == "opaque" && p.loadResult == "canceled" {
+			for _, q := range s.parts {
+				if q != p && q.spec.Key == p.spec.Key && q.arrived[ptJoined] {
+					o.label("opaque:subgraph-leader-aborted-with-followers")
+					break
+				}
+			}
+		}
+		if p.spec.Script == scCancel || p.spec.Script == scDeadline {
 			if p.cancelled {
 				o.label("cancel:fired:%s", p.cancelWhere)
 				if p.cancelBeforeProduct {
@@ -455,8 +532,21 @@ func classify(c *Case, p *pstate) (kind string, detail string) {
 	okB := outAlone(c.Layer, c.OpType, k, p.spec.Alt, scNormal).Out
 	failB := outAlone(c.Layer, c.OpType, k, p.spec.Alt, scFailLoad).Out
 	out := p.out
-	if out.err != nil {
+	var we *writeErr
+	ownWriteErr := false
+	if errors.As(out.err, &we) {
+		if we.pid != p.id {
+			return "foreign", fmt.Sprintf("returned %q: the failure of another participant's client connection (its own writer is healthy, it delivered %q)", out.err, out.Delivered)
+		}
+		if !p.spec.WriteFail {
+			return "other", fmt.Sprintf("returned a write error its writer never produced: %v", out.err)
+		}
+		// its own connection failed: judge what the engine tried to deliver
+		ownWriteErr = true
+	}
+	if out.err != nil && !ownWriteErr {
 		var ue *upstreamErr
+		var ae *abortErr
 		switch {
 		case errors.As(out.err, &ue):
 			if ue.key == k.String() {
@@ -464,7 +554,14 @@ func classify(c *Case, p *pstate) (kind string, detail string) {
 			} else {
 				return "foreign", fmt.Sprintf("returned the upstream error of key %s, its own key is %s", ue.key, k)
 			}
-		case errors.Is(out.err, context.Canceled):
+		case errors.As(out.err, &ae):
+			if ae.pid != p.id && !p.cancelled {
+				return "foreign", fmt.Sprintf("returned %q: the aborted call of another participant", out.err)
+			}
+			// its own aborted call; or it is itself cancelled and was handed the abort of an
+			// equally cancelled leader (with a wrapping transport the two are indistinguishable)
+			kind = "ctx"
+		case errors.Is(out.err, context.Canceled), errors.Is(out.err, context.DeadlineExceeded):
 			kind = "ctx"
 		default:
 			return "other", fmt.Sprintf("returned error %v, which is neither its key's upstream error nor a context error", out.err)
@@ -473,6 +570,9 @@ func classify(c *Case, p *pstate) (kind string, detail string) {
 			return "other", fmt.Sprintf("returned error %v after writing %q", out.err, out.Out)
 		}
 		return kind, ""
+	}
+	if !ownWriteErr && out.Delivered != out.Out {
+		return "other", fmt.Sprintf("harness: delivered %q differs from attempted %q", out.Delivered, out.Out)
 	}
 	switch out.Out {
 	case okB:
@@ -606,7 +706,7 @@ func oracle(c *Case, parts []*pstate, loads, prefetches []loadRec, o rec) []prob
 			// its own cancellation: its own context error, or whatever its own work rendered
 			acc["ctx"], acc["ok"], acc["fail"] = true, true, true
 		}
-		subCanceled := p.out.subErr != nil && errors.Is(p.out.subErr, context.Canceled)
+		subCanceled := ctxish(p.out.subErr)
 		if acc[kind] && !(subCanceled && !p.cancelled) {
 			continue
 		}
@@ -617,9 +717,9 @@ func oracle(c *Case, parts []*pstate, loads, prefetches []loadRec, o rec) []prob
 		}
 		switch {
 		case kind == "ctx":
-			add(f, "p%d (key %s, %s, own context NOT cancelled) returned %v: another participant's cancellation", p.id, p.key, p.spec.Script, p.out.err)
+			add(f, "p%d (key %s, %s, own context live) returned %v: another participant's cancellation / deadline", p.id, p.key, p.spec.Script, p.out.err)
 		case subCanceled && !p.cancelled:
-			add(f, "p%d (key %s, %s, own context NOT cancelled) got %q and its subgraph error is %v: another participant's cancellation; out_alone is %q",
+			add(f, "p%d (key %s, %s, own context live) got %q and its subgraph error is %v: another participant's cancellation / deadline; out_alone is %q",
 				p.id, p.key, p.spec.Script, p.out.Out, firstLine(p.out.subErr.Error()), outAlone(c.Layer, c.OpType, p.key, p.spec.Alt, scNormal).Out)
 		default:
 			add(f, "p%d (key %s, %s) outcome %s (out=%q err=%v) is not a result of its own key's work: acceptable here %v", p.id, p.key, p.spec.Script, kind, p.out.Out, p.out.err, keysOf(acc))
@@ -686,6 +786,15 @@ func labelExcluded18(o rec, layer string) {
 	if layer != layerInbound {
 		o.label("excluded:%s", f18Sub)
 	}
+}
+
+// ctxish: the error is (or reports) the end of somebody's request context.
+func ctxish(err error) bool {
+	if err == nil {
+		return false
+	}
+	var ae *abortErr
+	return errors.Is(err, context.Canceled) || errors.Is(err, context.DeadlineExceeded) || errors.As(err, &ae)
 }
 
 func keysOf(m map[string]bool) []string {
